@@ -212,10 +212,20 @@ func runMutant(p *props.Property, m props.Mutant) (status, line string) {
 	if err != nil {
 		return "stale", fmt.Sprintf("%s: STALE cannot read %s", m.Name, m.File)
 	}
-	if strings.Count(string(src), m.Old) != 1 {
-		return "stale", fmt.Sprintf("%s: STALE control (text to replace occurs %d times in %s)", m.Name, strings.Count(string(src), m.Old), m.File)
+	cnt := strings.Count(string(src), m.Old)
+	if (m.Occurrence == 0 && cnt != 1) || cnt < m.Occurrence || cnt == 0 {
+		return "stale", fmt.Sprintf("%s: STALE control (text to replace occurs %d times in %s, occurrence wanted %d)", m.Name, cnt, m.File, m.Occurrence)
 	}
-	mut := strings.Replace(string(src), m.Old, m.New, 1)
+	mut := string(src)
+	at := 0
+	for k := 1; ; k++ {
+		i := strings.Index(mut[at:], m.Old)
+		if k == m.Occurrence || m.Occurrence == 0 {
+			mut = mut[:at+i] + m.New + mut[at+i+len(m.Old):]
+			break
+		}
+		at += i + len(m.Old)
+	}
 	_, res, err := analyse(p, "quick", map[string][]byte{file: []byte(mut)})
 	if err != nil {
 		return "error", fmt.Sprintf("%s: ERROR mutant does not load: %v", m.Name, firstLine(err.Error()))
